@@ -182,6 +182,10 @@ def run(ctx):
                 ".table 't.tbl'\n.macro t() {\n.text 'ab'\n}\n{\nt()\nt()\n}\n", ".scope s {\n.for i := 0, 2 {\n.text 'b'\n}\n}\n"]
         for src in fam:
             progs.append({"src": src, "rom": "low_rom", "files": {"self.s": ".include 'self.s'\n", "t.tbl": "01=a\n02=b\n"}, "bins": {}, "hist": {}})
+        # included patch files that stop anywhere (no EOF marker, inside a record header, inside EO…)
+        full = b"PATCH" + b"\x00\x00\x10\x00\x02\xaa\xbb" + b"\x00\x00\x20\x00\x00\x00\x03\xcc" + b"EOF"
+        for cut in sorted(set([0, 3, 5, 6, 8, 10, 12, 14, 17, 20, len(full) - 2, len(full) - 1, len(full)] + [rng.randrange(len(full)) for _ in range(4)])):
+            progs.append({"src": "*=0x008000\n.db 1\n.include_ips 'cut.ips', 0\n.db 2\n", "rom": "low_rom", "files": {}, "bins": {"cut.ips": full[:cut]}, "hist": {}})
         import gen_wild
         for _ in range(150 if tier == "quick" else 3000):
             progs.append(gen_wild.generate(rng, drv))
